@@ -79,6 +79,8 @@ def base_program(pkg, layout="three", import_form="from_import", entry_data=Fals
         gen.s_keep("/bytes/big", BGB, [gen.lit("2")]),
     ]
     p["entry"] = main
+    for fid in (h2, C, D):
+        p["fns"][fid]["uses_display_methods"] = True
     if setvar:
         gen.add_setvar(p, leaf, [h2, C])
     if local:
@@ -571,6 +573,8 @@ def random_program(rng, pkg, nfn=None, with_loads=False):
                 f["stmts"].append(gen.s_call(g, mk_args(True)))
         if rng.random() < 0.2:
             f["uses_builtins"] = True
+        if rng.random() < 0.15:
+            f["uses_display_methods"] = True
         if rng.random() < 0.12:
             f["alias"] = True  # same-module references go through a module-level alias of the function
         if rng.random() < 0.15:
